@@ -596,7 +596,11 @@ static void check_next_coincident(Ctx& c, Pair& P, int csense) {
   if (ci != 0) {
     ref::GeodLine<ld> L(*e.El, (ld)P.latX, (ld)P.aziX, std::signbit(P.aziX)); double m12 = (double)L.at_dist((ld)q.first).m12;
     c.obs("intersect Next(coincident): |m12| at the returned conjugate point / tolerance [" + e.name + "]", std::fabs(m12) / Tc, w);
-    if (std::fabs(q.second - ci * q.first) > Tc) c.viol("oracle:C17/intersect/Next/coincident-result-off-the-coincidence-line", P.cls, w);
+    // (on the sphere the lines are closed: y = c x holds only modulo the circumference, membership already covers it)
+    // (closed lines - sphere, meridians, equator - satisfy y = c x only modulo their period; membership already covers them)
+    double sa0, ca0; Math::sincosd(P.aziX, sa0, ca0);
+    const bool closed = e.f == 0 || std::fabs(P.latX) > 90 - 1e-9 || sa0 == 0 || (P.latX == 0 && ca0 == 0);
+    if (!closed && std::fabs(q.second - ci * q.first) > Tc) c.viol("oracle:C17/intersect/Next/coincident-result-off-the-coincidence-line", P.cls, w);
     if (std::fabs(m12) > Tc) c.viol("oracle:C17/intersect/Next/coincident-result-is-not-a-conjugate-point", P.cls, J(w).f("m12", m12).f("conj_fwd", sf).f("conj_bwd", sb).f("tol", Tc));
     if (ci != csense) c.viol("oracle:C17/intersect/Next/coincidence-indicator", P.cls, J(w).i("expected_c", csense));
   }
@@ -609,7 +613,9 @@ static void check_next_coincident(Ctx& c, Pair& P, int csense) {
   c.obs("intersect Next(coincident): (L1 returned - L1 min) / tolerance [" + e.name + "]", (dl - best) / tolb, w);
   if (dl > best + tolb) c.viol("oracle:C17/intersect/Next/coincident-not-the-next-nearest", P.cls, J(w).f("L1_returned", dl).f("L1_min", best).str("nearest", which).f("conj_fwd", sf).f("conj_bwd", sb).i("self_crossings", (long long)cr.size()));
   if (ci == 0) {      // a crossing result must be one of the certificate's self-crossings
-    if (match(P, cr, q.first, q.second) < 0) c.viol("oracle:C17/intersect/Next/intersection-unknown-to-certificate", P.cls, J(w).str("certificate", liststr(cr, 0, 0)));
+    double ang; P.gap(q.first, q.second, false, &ang);
+    if (ang < 1e-4) c.event("coincident Next: self-crossing at an angle below the certificate's range (membership + optimality only)");
+    else if (match(P, cr, q.first, q.second) < 0) c.viol("oracle:C17/intersect/Next/intersection-unknown-to-certificate", P.cls, J(w).str("certificate", liststr(cr, 0, 0)));
   }
   c.event("coincident Next judged against conjugate points");
 }
